@@ -423,6 +423,19 @@ func Rounding(p *load.Program, run *report.Run, pkgs []string, files map[string]
 	rule := "rounding-discipline"
 	forEachFunc(p, pkgs, files, func(c *fnCtx) {
 		src := c.fd.Body
+		parent := map[ast.Node]ast.Node{}
+		var pstack []ast.Node
+		ast.Inspect(src, func(n ast.Node) bool {
+			if n == nil {
+				pstack = pstack[:len(pstack)-1]
+				return true
+			}
+			if len(pstack) > 0 {
+				parent[n] = pstack[len(pstack)-1]
+			}
+			pstack = append(pstack, n)
+			return true
+		})
 		ast.Inspect(src, func(n ast.Node) bool {
 			be, ok := n.(*ast.BinaryExpr)
 			if !ok || (be.Op != token.QUO && be.Op != token.SHR) {
@@ -442,6 +455,38 @@ func Rounding(p *load.Program, run *report.Run, pkgs []string, files map[string]
 			key := c.name + "/" + c.text(be)
 			pos := c.p.Rel(be.Pos())
 			run.Count("division-sites", 1)
+			// class 0: digit extraction — the quotient is immediately narrowed (byte(v >> 8)) or
+			// reduced (v >> 8 & 0xff, v / 10 % 10): the dropped part is consumed elsewhere by design
+			{
+				var up ast.Node = be
+				for {
+					up = parent[up]
+					if _, isParen := up.(*ast.ParenExpr); !isParen {
+						break
+					}
+				}
+				digit := false
+				switch t := up.(type) {
+				case *ast.CallExpr:
+					if tv, ok := c.pkg.TypesInfo.Types[t.Fun]; ok && tv.IsType() {
+						if bt, ok := tv.Type.Underlying().(*types.Basic); ok && bt.Info()&types.IsInteger != 0 {
+							if xt, ok := c.pkg.TypesInfo.TypeOf(be).Underlying().(*types.Basic); ok && intSize(bt) < intSize(xt) {
+								digit = true
+							}
+						}
+					}
+				case *ast.BinaryExpr:
+					if t.Op == token.AND || t.Op == token.REM {
+						if _, isK := c.constInt(t.Y); isK && ast.Unparen(t.X) == ast.Expr(be) {
+							digit = true
+						}
+					}
+				}
+				if digit {
+					run.OK(rule, key, pos, "digit extraction: the quotient is narrowed or reduced at once")
+					return true
+				}
+			}
 			// class 1: ceil idiom (x + d-1)/d
 			if par, ok := be.X.(*ast.ParenExpr); ok {
 				if add, ok := par.X.(*ast.BinaryExpr); ok && add.Op == token.ADD {
@@ -710,4 +755,16 @@ func effective(info *types.Info, list []ast.Stmt) []ast.Stmt {
 		}
 	}
 	return out
+}
+
+func intSize(b *types.Basic) int {
+	switch b.Kind() {
+	case types.Int8, types.Uint8:
+		return 1
+	case types.Int16, types.Uint16:
+		return 2
+	case types.Int32, types.Uint32:
+		return 4
+	}
+	return 8
 }
